@@ -325,7 +325,7 @@ fn gen_side(rng: &mut Rng, total: u32, wide: bool) -> Side {
         try_write: rng.chance(if wide { 1 } else { 1 }, if wide { 3 } else { 8 }),
         reads,
         peek: if rng.chance(1, 4) { rng.range(1, 3) as u8 } else { 0 },
-        close: *rng.pick(&[Close::Shutdown, Close::Shutdown, Close::DropHalf, Close::AfterEof]),
+        close: *rng.pick(&[Close::Shutdown, Close::Shutdown, Close::DropHalf, Close::AfterEof, Close::DropAll]),
         wait_first: false,
         read_delay: 0,
         read_after_write: false,
